@@ -94,6 +94,7 @@ type Theorem struct {
 }
 
 type Contracts struct {
+	Immutable map[string][]string // struct type name -> functions allowed to write it (constructors)
 	Theorems []*Theorem
 	Macros  map[string]*Macro
 	Funcs   map[string]*FuncContract // key: pkgpath + "::" + name  (repo) or full name (lib)
@@ -270,6 +271,18 @@ func (cs *Contracts) parseContractFile(file string, repo bool, pkgPath string) e
 			mc := &Macro{Params: ps, Body: body}
 			cs.Macros[m[1]] = mc
 			last = &mc.Body
+		case word == "immutable":
+			cur, curLemma = nil, nil
+			// immutable pkg.Type except f, g, h
+			parts := strings.SplitN(rest, " except ", 2)
+			var allow []string
+			if len(parts) == 2 {
+				for _, x := range strings.Split(parts[1], ",") {
+					allow = append(allow, strings.TrimSpace(x))
+				}
+			}
+			cs.Immutable[strings.TrimSpace(parts[0])] = allow
+			last = nil
 		case word == "closed":
 			cur, curLemma = nil, nil
 			i := strings.Index(rest, ":")
@@ -449,7 +462,7 @@ func splitTop(s string, sep byte) []string {
 }
 
 func loadContracts(repo string, libDir string, pkgDirs map[string]string) (*Contracts, error) {
-	cs := &Contracts{Funcs: map[string]*FuncContract{}, Closed: map[string][]string{}, Macros: map[string]*Macro{}}
+	cs := &Contracts{Funcs: map[string]*FuncContract{}, Closed: map[string][]string{}, Macros: map[string]*Macro{}, Immutable: map[string][]string{}}
 	libs, _ := filepath.Glob(filepath.Join(libDir, "*.contracts"))
 	for _, l := range libs {
 		if err := cs.parseContractFile(l, false, ""); err != nil {
